@@ -199,8 +199,9 @@ func prepareReassembly(bs []Bundle) error {
 			return fmt.Errorf("next fragment starts at offset %d, gap from %d to %d", fragOff, lastIndex, fragOff)
 		} else if payloadBlock, err := b.PayloadBlock(); err != nil {
 			return err
-		} else {
-			lastIndex = fragOff + uint64(len(payloadBlock.Value.(*PayloadBlock).Data()))
+		} else if fragEnd := fragOff + uint64(len(payloadBlock.Value.(*PayloadBlock).Data())); fragEnd > lastIndex {
+			// A fragment might be contained in its predecessors, then the covered range does not grow.
+			lastIndex = fragEnd
 		}
 	}
 
@@ -233,6 +234,11 @@ func mergeFragmentPayload(bs []Bundle) (data []byte, err error) {
 			return
 		}
 		fragPayloadData = fragPayloadBlock.Value.(*PayloadBlock).Data()
+
+		if fragStartIndex+len(fragPayloadData) <= lastIndex {
+			// This fragment is contained in its predecessors.
+			continue
+		}
 
 		data = append(data, fragPayloadData[lastIndex-fragStartIndex:]...)
 		lastIndex = fragStartIndex + len(fragPayloadData)
